@@ -147,6 +147,24 @@ def r1_layouts(ctx):
         dp = ip.explore(des)
         ctx.evals(len(sp) + len(dp))
         if len(sp) != 1 or len(dp) != 1 or sp[0].exit[0] != "return" or dp[0].exit[0] != "return":
+            # an encoder that takes different paths depending on a field's length is fine if it *rejects* on one of them; one that puts a slice of a
+            # field on the wire truncates silently — the decoder then returns another message than the one encoded
+            from ..terms import Sub as _Sub, subterms as _subterms
+            cut = None
+            for p_ in sp:
+                if p_.exit[0] != "return":
+                    continue
+                for t in _subterms(p_.exit[1]):
+                    if isinstance(t, _Sub) and "slice(" in vkey(t.index) and vkey(t.base).startswith(("self.", "str(self.")):
+                        cut = (p_, t)
+                        break
+                if cut:
+                    break
+            if cut:
+                ctx.violation("C17.R1", ser.qual, loc(ser), "no silent truncation when encoding",
+                              f"{ci.name}.ser puts {vkey(cut[1])[:80]} on the wire on the path where {', '.join(f'{d.key[:50]}={d.value}' for d in cut[0].decisions[-2:])}: a value "
+                              f"the field admits is cut instead of being rejected, and decoding returns a different message than the one encoded")
+                continue
             ctx.undecided("C17.R1", loc(ser), f"{ci.name}: ser/deser are not single-path functions")
             continue
         lay = _ser_layout(sp[0].exit[1])
